@@ -37,4 +37,15 @@ HashReport ==
                   /\ (EffTuple(HashObs[a]) = EffTuple(HashObs[b]))
                        # (HashObs[a].hash = HashObs[b].hash)}
     IN bad = {} \/ PrintT(ToJson([hashpairs |-> bad]))
+
+\* Default-everything use of every entry point on fresh objects, repeated by
+\* every worker process before each chunk of histories it executes: what it
+\* observes (named digests) must not depend on what the process did before
+\* (module-level state, shared default objects, memo tables).
+Sentinels == Batch.sentinels
+SentinelReport ==
+  (t = 1 /\ i = 1) =>
+    LET bad == {f \in DOMAIN Sentinels[1] :
+                  Cardinality({Sentinels[j][f] : j \in DOMAIN Sentinels}) > 1}
+    IN bad = {} \/ PrintT(ToJson([sentinel_fields |-> bad]))
 =============================================================================
